@@ -65,7 +65,8 @@ NOISE = {"red": 0.05, "green": 0.08, "blue": 0.02}
 
 CH_AXES = {
     "nch": [2, 3],
-    "wl": ["dict", "xarray"],
+    # "list": plain numbers in the order of the detector's channels
+    "wl": ["dict", "xarray", "list"],
     "pol": ["vector", "dict", "xarray", "xarray-raw", "xarray-yxz"],
     "n": ["scalar", "dict", "xarray"],
     "r": ["scalar", "dict"],
@@ -245,6 +246,8 @@ def _mk_param(kind, table, labels, order, vec=False):
         return table[labels[0]]
     if kind == "dict":
         return {lab: table[lab] for lab in _perm(labels, order)}
+    if kind == "list":
+        return [table[lab] for lab in labels]
     if kind == "xarray-raw":
         # a labelled array whose rows are NOT unit vectors
         raw = {"red": (2.0, 0.0, 0.0), "green": (0.0, 3.0, 0.0),
